@@ -165,14 +165,22 @@ pub struct Hist {
     next_id: u32,
     pub log: Vec<String>,
     todo: VecDeque<Todo>,
+    /// operations the environment must perform next (a producer that skipped a
+    /// transaction also skips the handed-out transactions depending on it)
+    forced: VecDeque<Op>,
     /// ids ever handed to the pool (insert / preconfirmation / block)
     pub seen: BTreeSet<TxId>,
     spent_fields: BTreeMap<UtxoId, CoinFields>,
     pub counters: BTreeMap<String, u64>,
+    /// see `Snap::contract_parents`
+    contract_parents: BTreeMap<TxId, BTreeMap<ContractId, TxId>>,
     /// fewer draining operations: pools grow larger
     calm: bool,
     /// may a block contain a pooled transaction together with its pooled parent?
     pub parent_child_blocks: bool,
+    /// do not generate submissions that hit an entry the bounded spent-input cache
+    /// has already dropped (finding S6); keeps histories running to their end
+    avoid_forgotten: bool,
 }
 
 pub enum Ran {
@@ -183,6 +191,7 @@ pub enum Ran {
 impl Hist {
     pub fn new(cfg: Cfg, focus: Focus, mut rng: StdRng, parent_child_blocks: bool) -> Self {
         let calm = chance(&mut rng, 50);
+        let avoid_forgotten = focus != Focus::C19 || chance(&mut rng, 50);
         let chain = ChainView::default();
         chain.with(|c| {
             for i in 0..28 {
@@ -241,11 +250,14 @@ impl Hist {
             next_id: 1,
             log: Vec::new(),
             todo: VecDeque::new(),
+            forced: VecDeque::new(),
             seen: BTreeSet::new(),
             spent_fields: BTreeMap::new(),
             counters: BTreeMap::new(),
+            contract_parents: BTreeMap::new(),
             calm,
             parent_child_blocks,
+            avoid_forgotten,
         };
         h.snap = h.snapshot();
         h
@@ -593,13 +605,74 @@ impl Hist {
             .collect()
     }
 
-    /// May a Create for this contract be generated now? Not when the contract
-    /// already exists on chain or was created by a handed-out / preconfirmed tx:
-    /// fuel-core's verification stage would not let such a Create reach the pool,
-    /// and content-derived dependencies would then disagree with reality.
+    /// May a Create for this contract reach the pool now? Not when the contract
+    /// already exists on chain, was created by a handed-out / preconfirmed
+    /// transaction, or is used by pooled transactions without a pooled creator:
+    /// fuel-core's verification stage does not let such a Create reach the pool,
+    /// and content-derived dependencies would then disagree with what the pool
+    /// could know.
+    fn contract_creatable(&self, c: &ContractId, by: Option<&TxId>) -> bool {
+        if self.model.chain.with(|ch| ch.contracts.contains(c)) {
+            return false;
+        }
+        if self
+            .model
+            .unsettled
+            .iter()
+            .any(|(id, u)| Some(id) != by && u.contracts.contains(c))
+        {
+            return false;
+        }
+        let pooled_creator = self
+            .snap
+            .txs
+            .values()
+            .any(|t| t.created_contracts().any(|x| &x == c));
+        let pooled_user = self.snap.txs.values().any(|t| t.contracts.contains(c));
+        !(pooled_user && !pooled_creator)
+    }
+
     fn creatable(&self, i: usize) -> bool {
-        let c = txgen::creatable_contract(i);
-        !self.model.chain.with(|ch| ch.contracts.contains(&c)) && !self.model.unsettled_contract(&c)
+        self.contract_creatable(&txgen::creatable_contract(i), None)
+    }
+
+    fn create_allowed_now(&self, info: &TxInfo) -> bool {
+        info.created_contracts()
+            .all(|c| self.contract_creatable(&c, Some(&info.id)))
+    }
+
+    /// unsettled transactions that (transitively) depend on outputs of `roots`
+    fn unsettled_dependents(&self, roots: &BTreeSet<TxId>) -> Vec<TxId> {
+        let mut set = roots.clone();
+        let mut out: Vec<(u64, TxId)> = Vec::new();
+        loop {
+            let mut grew = false;
+            for (id, u) in &self.model.unsettled {
+                if set.contains(id) {
+                    continue;
+                }
+                let coin_dep = u.info.coins.iter().any(|(c, _)| set.contains(c.tx_id()));
+                let contract_dep = u.info.contracts.iter().any(|c| {
+                    !self.model.chain.with(|ch| ch.contracts.contains(c))
+                        && set.iter().any(|r| {
+                            self.model
+                                .store
+                                .get(r)
+                                .is_some_and(|(_, i)| i.created_contracts().any(|x| &x == c))
+                        })
+                });
+                if coin_dep || contract_dep {
+                    set.insert(*id);
+                    out.push((u.seq, *id));
+                    grew = true;
+                }
+            }
+            if !grew {
+                break;
+            }
+        }
+        out.sort();
+        out.into_iter().map(|x| x.1).collect()
     }
 
     fn gen_spec(&mut self) -> (TxSpec, &'static str) {
@@ -805,6 +878,46 @@ impl Hist {
     }
 
     fn gen_insert(&mut self) -> Op {
+        for _ in 0..8 {
+            let op = self.gen_insert_inner();
+            if let Op::Insert { info, .. } = &op
+                && !self.create_allowed_now(info)
+            {
+                self.count("gen.avoided.create_of_existing_contract");
+                continue;
+            }
+            if self.avoid_forgotten
+                && let Op::Insert { info, .. } = &op
+                && self.hits_forgotten_entry(info)
+            {
+                self.count("gen.avoided.submission_hitting_dropped_cache_entry");
+                continue;
+            }
+            return op;
+        }
+        loop {
+            let (tx, info, why) = self.build_new();
+            if self.create_allowed_now(&info) {
+                return Op::Insert { tx, info, why };
+            }
+        }
+    }
+
+    fn hits_forgotten_entry(&self, info: &TxInfo) -> bool {
+        let cap = self.cfg.max_txs + 1;
+        (self.model.unsettled.contains_key(&info.id)
+            && self.model.cache_forgot(&Key::Tx(info.id), cap))
+            || info.coins.iter().any(|(u, _)| {
+            !self.snap.contains(u.tx_id())
+                && self.model.handed_out_coin(u).is_some()
+                && self.model.cache_forgot(&Key::Coin(*u), cap)
+        }) || info.msgs.iter().any(|m| {
+            self.model.handed_out_msg(&m.nonce).is_some()
+                && self.model.cache_forgot(&Key::Msg(m.nonce), cap)
+        })
+    }
+
+    fn gen_insert_inner(&mut self) -> Op {
         // probes queued by earlier reconciliation steps
         while let Some(t) = self.todo.pop_front() {
             if !chance(&mut self.rng, 75) {
@@ -1196,6 +1309,15 @@ impl Hist {
                 self.count("gen.avoided.skip_of_handed_out_create_with_pooled_users");
                 return None;
             }
+            if self.model.unsettled.contains_key(&id) {
+                let deps = self.unsettled_dependents(&[id].into_iter().collect());
+                if deps.iter().any(|d| {
+                    matches!(self.model.unsettled[d].state, UState::Tentative { .. })
+                }) {
+                    self.count("gen.avoided.skip_of_tx_with_preconfirmed_dependent");
+                    return None;
+                }
+            }
         }
         let height = if stale {
             self.rng.gen_range(0..=canonical)
@@ -1248,6 +1370,10 @@ impl Hist {
             Focus::C20 => [52, 11, 14, 18, 3, 2],
             Focus::C21 => [56, 9, 10, 13, 9, 3],
         };
+        if let Some(op) = self.forced.pop_front() {
+            self.count("gen.forced_skip_of_dependent_handed_out_tx");
+            return op;
+        }
         if !self.todo.is_empty() && chance(&mut self.rng, 60) {
             return self.gen_insert();
         }
@@ -1487,6 +1613,41 @@ impl Hist {
                 return Ran::Panic("snapshot".to_string(), p);
             }
         };
+        let mut after = after;
+        {
+            // contract creators as seen at the moment each new transaction was admitted
+            let mut view: BTreeMap<TxId, Arc<TxInfo>> = before.txs.clone();
+            let mut admitted: Vec<TxId> = Vec::new();
+            if let (Op::Insert { info, .. }, Some(Outcome::Inserted)) = (&op, &insert) {
+                admitted.push(info.id);
+            }
+            admitted.extend(followups.iter().filter(|(_, o)| o.is_inserted()).map(|x| x.0));
+            for b in admitted {
+                let Some(info) = after.txs.get(&b).cloned() else {
+                    continue;
+                };
+                let mut rec = BTreeMap::new();
+                for c in &info.contracts {
+                    let cands: Vec<TxId> = view
+                        .values()
+                        .filter(|a| a.id != b && a.created_contracts().any(|x| &x == c))
+                        .map(|a| a.id)
+                        .collect();
+                    let pick = cands
+                        .iter()
+                        .find(|a| after.contains(a))
+                        .or(cands.first())
+                        .copied();
+                    if let Some(a) = pick {
+                        rec.insert(*c, a);
+                    }
+                }
+                self.contract_parents.insert(b, rec);
+                view.insert(b, info);
+            }
+            self.contract_parents.retain(|k, _| after.contains(k));
+            after.contract_parents = self.contract_parents.clone();
+        }
         let result = match &op {
             Op::Insert { .. } => insert.as_ref().map(|o| o.short()).unwrap_or_default(),
             Op::Extract { .. } => format!(
@@ -1528,6 +1689,28 @@ impl Hist {
             sink,
             chain,
         }))
+    }
+
+    /// the producer cannot execute handed-out transactions whose parent was skipped or
+    /// rolled back: it reports them squeezed out right away
+    fn force_skips(&mut self, deps: Vec<TxId>) {
+        for d in deps {
+            if self
+                .model
+                .unsettled
+                .get(&d)
+                .is_some_and(|u| u.state == UState::Extracted)
+                && !self.forced.iter().any(|op| matches!(op, Op::Preconf { id, .. } if id == &d))
+            {
+                self.forced.push_back(Op::Preconf {
+                    id: d,
+                    kind: PKind::Squeezed,
+                    height: 0,
+                    stale: false,
+                    outputs: None,
+                });
+            }
+        }
     }
 
     /// Bring the harness model up to date with an executed step.
@@ -1621,6 +1804,8 @@ impl Hist {
                     })
                     .map(|(id, _)| *id)
                     .collect();
+                let deps = self.unsettled_dependents(&rolled.iter().copied().collect());
+                self.force_skips(deps);
                 for id in rolled {
                     self.model.unsettled.remove(&id);
                     if !step.after.contains(&id) {
@@ -1648,8 +1833,10 @@ impl Hist {
                     if let Some(u) = self.model.unsettled.get(id)
                         && u.state == UState::Extracted
                     {
+                        let deps = self.unsettled_dependents(&[*id].into_iter().collect());
                         self.model.unsettled.remove(id);
                         self.model.removed.insert(*id);
+                        self.force_skips(deps);
                         if chance(&mut self.rng, 50) {
                             self.todo.push_back(Todo::Resubmit(*id, "resubmit_skipped"));
                         }
